@@ -411,7 +411,6 @@ func (C10) execute(p *Plan, r *simkit.Run) *simkit.Violation {
 	return nil
 }
 
-
 // judgeTokenBatch: a conditional batch of tokens writes exactly the tokens whose own index matches.
 func (c *Cluster) judgeTokenBatch(i int, s Step, r *simkit.Run, mk func(int, Step, string, string, string) *simkit.Violation) *simkit.Violation {
 	st := c.L.State()
